@@ -249,6 +249,8 @@ def concretise_value(v, model):
         n = model.eval(v.length, model_completion=True).as_long()
         from . import heap as H
         return {'__symlist__': [_conc_symobj(H.SymObj(z3.Select(v.elems, k), v.schema, v.heap), model) for k in range(min(n, 40))], 'length': n}
+    if tn == 'SymIter':
+        return {'__symiter__': concretise_value(v.base, model), 'cursor': model.eval(v.cursor, model_completion=True).as_long()}
     if isinstance(v, Obj):
         return {'__obj__': v.name, 'fields': {k: concretise_value(x, model) for k, x in v.fields.items() if not callable(x)}}
     return v
@@ -368,6 +370,7 @@ def verify(t: Target, seed=0, prefixes=None, budget=None, budget_s=None):
             p.no_fork = eng.loop_phase == 'body'
             old = snapshot(env, p)
             env['old'] = old
+            p.env_for_replay = env  # obligations raised inside the function (loop invariants, call preconditions) replay with the same inputs
             env['ghost'] = p.ghost
             try:
                 r = I.call_func(target_func, list(args), dict(kwargs))
@@ -688,6 +691,9 @@ def snap_value(v, depth=0, hs=None):
     if tn == 'SymObj':
         from . import heap as H
         return H.SymObj(v.id, v.schema, hs)
+    if tn == 'SymIter':
+        from . import heap as H
+        return H.SymIter(v.base.frozen(hs), v.cursor)
     if isinstance(v, Obj):
         o = Obj(v.cls, {}, v.name)
         o.snapshot_of = v
@@ -755,6 +761,25 @@ def replay(t: Target, ob, model, mod):
             return w
         # native return
         nenv['result'] = out[1]
+        if cl is None and info.get('internal'):
+            # an obligation raised inside the function (loop invariant, variant, call precondition) failed: the solver's input is
+            # run on the real function and judged by the target's own postconditions
+            bad = []
+            for pc in t.ensures:
+                try:
+                    if native_clause(pc.fn, nenv) is False:
+                        bad.append(pc.name)
+                except NotImplementedError:
+                    continue
+                except Exception as ex:
+                    w['reason'] = f'clause {pc.name} not evaluable natively: {type(ex).__name__}: {ex}'
+                    return w
+            if bad:
+                w['replayed'] = True
+                w['reason'] = 'postcondition(s) false on the real function for the input of the failed internal obligation: ' + ', '.join(bad)
+            else:
+                w['reason'] = 'the postconditions hold on the real function for this input (the internal obligation fails for a state the model reaches, not shown as an end-to-end failure)'
+            return w
         if sym_outcome != 'return' or cl is None:
             w['reason'] = 'real function returned normally on the concretised input (symbolic path took an assumed callee exception)'
             return w
